@@ -9,7 +9,7 @@ Inductive mphase :=
 | MLoop            (* the select! loop of start() *)
 | MClosing         (* shutdown(): endpoint closed, pending connections being aborted *)
 | MWaitHandlers    (* awaiting connection_handlers.join_next() until empty *)
-| MAssert          (* the emptiness assertion on the active-peer set *)
+| MAssert          (* all handlers joined: remove whatever cancelled handlers left in the active-peer set *)
 | MWaitIdle        (* endpoint.wait_idle(bounded) and the two rebinds *)
 | MDone            (* start() returned; manager state dropped *)
 | MPanicked.
@@ -57,7 +57,7 @@ Inductive label :=
 | AbortPending            (* shutdown(): pending_connections.shutdown().await *)
 | AllJoined | Assert | Finish
 | Cancel (h : N)          (* runtime teardown cancels a handler task *)
-| AcceptNone.             (* accept() yields None: endpoint driver gone *)
+| AcceptNone.             (* accept() yields None (endpoint driver gone): the loop yields to the scheduler *)
 
 Fixpoint find_h (i : N) (l : list handler) : option handler :=
   match l with
@@ -214,11 +214,9 @@ Definition step (s : state) (l : label) : option state :=
           match h_ph h with
           | HEnded => Some (set_hands s (del_h i (hands s)))
           | HCancelled =>
-              (* join_next() yields a cancelled JoinError: unwrapped in the loop, ignored in shutdown() *)
-              match ph s with
-              | MLoop => Some (set_phase s MPanicked)
-              | _ => Some (set_hands s (del_h i (hands s)))
-              end
+              (* join_next() yields a cancelled JoinError: the task is gone, its entry (if any) stays
+                 until shutdown() removes it *)
+              Some (set_hands s (del_h i (hands s)))
           | _ => None
           end
       | _, _ => None
@@ -239,8 +237,11 @@ Definition step (s : state) (l : label) : option state :=
       | _, _ => None
       end
   | Assert =>
+      (* every handler removed its own entry; what a cancelled handler left behind is removed on
+         its behalf, with a LostPeer event each (formerly an assertion) *)
       match ph s with
-      | MAssert => Some (set_phase s (match entries s with [] => MWaitIdle | _ => MPanicked end))
+      | MAssert => Some (mkS MWaitIdle (inbound s) (hands s) [] (calls s)
+                             (lost_events s + length (entries s)) (endpoint_closed s) (next_id s))
       | _ => None
       end
   | Finish =>
@@ -284,3 +285,8 @@ Definition meas (s : state) : nat := rank (ph s) + inbound s + length (entries s
 Definition progress_label (l : label) : bool :=
   match l with Submit _ => false | _ => true end.
 Definition count_progress (ls : list label) : nat := length (filter progress_label ls).
+
+(** Labels after which the manager task has yielded to the scheduler (so that a runtime that is
+    shutting down can cancel it): all of them, since every loop iteration ends in an await that
+    either consumed an event or, for [AcceptNone], is an explicit yield. *)
+Definition consumes_event (l : label) : bool := match l with AcceptNone => false | _ => true end.
